@@ -353,36 +353,60 @@ def run(ctx):
             raise core.Infra("the model of the code as found no longer yields finding %d (%s)" % (n, r2.violated))
     # (2) spec -> code -> spec: an edge cover of the reachable graph of the tree's design, replayed step by step on the
     #     real threads under the hook scheduler; every step's observations are validated by TLC
-    gc = (3, 2, 2)
+    gc = (3, 2, 2) if q else (4, 2, 2)
     init, g, rg = dump_graph(ctx, mc_cfg(ctx, "LogThreadMC_graph.cfg", fixes, present, gc), "graph")
     paths = edge_cover(init, g, ctx.rng)
     nedges = sum(len(v) for v in g.values())
-    if q and len(paths) > 1500:
-        paths = ctx.rng.sample(paths, 1500)
-        ctx.cov["edge_cover_complete"] = False
-    else:
-        ctx.cov["edge_cover_complete"] = True
     ctx.cov["graph_edges"] = nedges
-    ctx.cov["cover_paths"] = len(paths)
+    ctx.cov["cover_paths_total"] = len(paths)
+    if q and len(paths) > 2000:
+        paths = ctx.rng.sample(paths, 2000)
+    ctx.cov["edge_cover_complete"] = not q
+    ctx.cov["cover_paths_replayed"] = len(paths)
     ctx.sample({"cover_path": paths[len(paths) // 2][:60]})
     tcfg = trace_cfg(ctx, fixes, gc[1])
-    ctx.exec_validate(exe, paths, to_lines_limit(gc[1]), "LogThreadTrace.tla", tcfg, nshards=4, label="c16-cover", timeout=1500)
+    CH = 4000
+    for c in range(0, len(paths), CH):
+        ctx.exec_validate(exe, paths[c:c + CH], to_lines_limit(gc[1]), "LogThreadTrace.tla", tcfg, nshards=4,
+                          label="c16-cover%d" % (c // CH), timeout=1500)
+        if len(ctx.violations) >= 8:
+            break
+    if len(ctx.violations) >= 8:
+        ctx.notes.append("the edge cover already produced %d rejections: random walks and free-running executions were not run" % len(ctx.violations))
+        return
     # (3) random walks of a larger configuration (more messages, deeper backlog, more init cycles)
     big = (8, 3, 3) if q else (12, 4, 3)
-    walks = simulate(ctx, fixes, present, big, 300 if q else 4000, 220 if q else 320, "sim")
+    walks = simulate(ctx, fixes, present, big, 300 if q else 3000, 220 if q else 320, "sim")
     ctx.sample({"random_walk": walks[0][:60]})
     ctx.exec_validate(exe, walks, to_lines_limit(big[1]), "LogThreadTrace.tla", trace_cfg(ctx, fixes, big[1]), nshards=4,
                       label="c16-walk", timeout=1500)
-    # (4) free-running executions (real timing, real 512000-byte limit): call-level events against LogThreadFree
+    # (4) free-running executions (real timing, real 512000-byte limit): call-level events against LogThreadFree,
+    #     under ASan/UBSan and again under ThreadSanitizer (data-race monitor)
+    fcfg = os.path.join(core.SPEC, "LogThreadFreeTrace.cfg")
     progs = free_programs(ctx.rng, 16 if q else 240, present)
     ctx.sample({"free_program": progs[0]})
-    ctx.exec_validate(exe, progs, lambda p: p, "LogThreadFreeTrace.tla", os.path.join(core.SPEC, "LogThreadFreeTrace.cfg"),
-                      nshards=4, label="c16-free", timeout=1500)
+    ctx.exec_validate(exe, progs, lambda p: p, "LogThreadFreeTrace.tla", fcfg, nshards=4, label="c16-free", timeout=1500)
+    tenv = {"TSAN_OPTIONS": "exitcode=66 halt_on_error=1 report_signal_unsafe=0"}
+    try:
+        exe_t = ctx.cc("h_logthread.c", "tsan")
+        rc, s_, t_, se = None, None, None, None
+        smoke = os.path.join(ctx.work, "tsan-smoke.sched")
+        open(smoke, "w").write("Free\nInit\nFini\n")
+        rc, so, se = ctx.run([exe_t, smoke, smoke + ".ndjson"], timeout=60, env=tenv)
+        if rc != 0:
+            raise core.Infra("ThreadSanitizer smoke run failed (rc=%d): %s" % (rc, se[-300:]))
+    except core.Infra as e:
+        ctx.notes.append("ThreadSanitizer variant not run: %s" % str(e).splitlines()[0][:200])
+        exe_t = None
+    if exe_t:
+        progs_t = free_programs(ctx.rng, 12 if q else 120, present)
+        ctx.exec_validate(exe_t, progs_t, lambda p: p, "LogThreadFreeTrace.tla", fcfg, nshards=4, label="c16-tsan", timeout=1500, env=tenv)
     ctx.cov["exhaustive"] = True
     ctx.assumptions += [
         "one application thread is producer and controller (the property speaks of a producer; concurrent qb_log calls are discarded by in_logger by design)",
         "qb_log on the threaded target is generated only while the target is enabled + threaded and the thread was started (the property's precondition); logging to a threaded target before qb_log_thread_start also dereferences the NULL lock (same root cause as KF-C16-2) but is not part of the generated histories",
         "controlled runs are sequentially consistent interleavings at hook-point granularity (x86 host); the lock is a pthread spinlock on this configuration",
+        "quick tier replays a seeded sample of the edge-cover paths (thorough: all of them, for 4 messages); data races are looked for by ThreadSanitizer on the free-running executions only",
         "controlled runs scale the 512000-byte backlog limit to a few records by offsetting logt_memory_used once through the pointer carried by the P_LOCKED hook; the free-running runs use the real limit unscaled",
         "delivery is not demanded of messages that were pending when the target was disabled, un-threaded or closed (the property is silent there); they must still be written at most once and in order",
         "start failures of the logging thread (pthread_create / scheduling parameters) are not generated",
